@@ -99,4 +99,8 @@ theorem cosmology_wiring : Gen.Flow.wiring.lookup "Cosmology.cosmo" = some Spec.
 /-- thresholds in hmf.py (the non-linear-mass bracketing tests, the 10^16.5 tail limit, the δc range) are the documented ones; no new special case -/
 theorem guards_mass_function : Gen.Guards.massFunction = Spec.Guards.massFunction := by decide
 
+/-- components are constructed (and internal numerical routines called) at exactly the documented places: no second, differently
+    parameterised instance is built anywhere in the framework classes -/
+theorem wiring_sites : Gen.Flow.wiring.map (·.1) = Spec.Wiring.sites := by decide
+
 end Hmf.C02
